@@ -331,6 +331,42 @@ func inlinePackage(p *packages.Package, newTypes map[string]*types.Package, leve
 			})
 		}
 	}
+	// operand order: a constant operand of a commutative numeric operation or of a comparison goes to the right
+	// (`0 == x&15` reads `x&15 == 0`, `15&mask` reads `mask&15`, `0 < n` reads `n > 0`); the constant has no effects,
+	// so the evaluation order is untouched
+	{
+		mirror := map[token.Token]token.Token{token.LSS: token.GTR, token.GTR: token.LSS, token.LEQ: token.GEQ, token.GEQ: token.LEQ, token.EQL: token.EQL, token.NEQ: token.NEQ}
+		for _, f := range files {
+			ast.Inspect(f, func(nd ast.Node) bool {
+				be, ok := nd.(*ast.BinaryExpr)
+				if !ok {
+					return true
+				}
+				tx, okx := info.Types[be.X]
+				ty, oky := info.Types[be.Y]
+				if !okx || !oky || tx.Value == nil || ty.Value != nil {
+					return true
+				}
+				numeric := func(t types.Type) bool {
+					b, ok := t.Underlying().(*types.Basic)
+					return ok && b.Info()&types.IsNumeric != 0
+				}
+				if ty.Type == nil || !numeric(ty.Type) {
+					return true
+				}
+				switch be.Op {
+				case token.ADD, token.MUL, token.AND, token.OR, token.XOR:
+					be.X, be.Y = be.Y, be.X
+					nInl++
+				case token.EQL, token.NEQ, token.LSS, token.GTR, token.LEQ, token.GEQ:
+					be.X, be.Y = be.Y, be.X
+					be.Op = mirror[be.Op]
+					nInl++
+				}
+				return true
+			})
+		}
+	}
 	// standard-library synonyms: bits.LenN(x) is N - bits.LeadingZerosN(x) by definition (math/bits); the rules
 	// speak about LeadingZeros only
 	for _, f := range files {
